@@ -148,6 +148,7 @@ def finish(mod, tier: str, seed: int, results: List[JobResult], wall: float) -> 
     tot = dict(paths=0, queries=0, solver_s=0.0, validated=0, pruned=0)
     kinds: Dict[str, int] = {}
     inconclusive: List[str] = []
+    undecided_hard = False
     samples: List[Any] = []
     obligations = 0
     discharged = 0
@@ -181,6 +182,10 @@ def finish(mod, tier: str, seed: int, results: List[JobResult], wall: float) -> 
             if r["unwind_failures"]:
                 why.append("unwinding assertion failed: " + r["unwind_failures"][0])
             inconclusive.append(f"{r['name']}: " + "; ".join(why))
+            if r["unsupported"] or r["unwind_failures"]:
+                # deterministic: the current source does something the engine cannot encode, so this obligation is NOT decided.
+                # Never a pass (exit 2, the harness-error code); a plain time-budget overrun stays a reported INCONCLUSIVE line.
+                undecided_hard = True
         for s in r["samples"]:
             if len(samples) < 12:
                 samples.append({"job": r["name"], **(s if isinstance(s, dict) else {"case": s})})
@@ -272,7 +277,7 @@ def finish(mod, tier: str, seed: int, results: List[JobResult], wall: float) -> 
     sys.stdout.flush()
     if seen_keys:
         return 1
-    if harness_errors:
+    if harness_errors or undecided_hard:
         return 2
     return 0
 
